@@ -169,11 +169,11 @@ def render_ctx(ctxname, setup, call):
     raise ValueError(ctxname)
 
 
-def gen_builtin_cases(listing, tbl, tier, rng):
+def gen_builtin_cases(listing, tbl, tier, rng, tag="b", groups=("os", "filepath", "fmt", "globals", "file")):
     cases, unlisted = [], []
     ctxs = CONTEXTS if tier == "thorough" else QUICK_CONTEXTS
     k = 0
-    for group in ("os", "filepath", "fmt", "globals", "file"):
+    for group in groups:
         for name in listing.get(group, []):
             spec = tbl[group].get(name)
             if spec is None:
@@ -190,9 +190,9 @@ def gen_builtin_cases(listing, tbl, tier, rng):
                     else:
                         withos, cid, want = 3, 3, 3
                     k += 1
-                    cases.append({"id": "b%d" % k, "kind": "builtin", "builtin": group + "." + name, "context": ctxname,
+                    cases.append({"id": "%s%d" % (tag, k), "kind": "builtin", "builtin": group + "." + name, "context": ctxname,
                                   "supply": supply, "expect": expect, "want_os": want,
-                                  "spec": {"id": "b%d" % k, "main": main, "modules": mods, "withos": withos,
+                                  "spec": {"id": "%s%d" % (tag, k), "main": main, "modules": mods, "withos": withos,
                                            "steps": [{"kind": "top", "ctx": cid}] + [{"kind": h, "ctx": cid} for h in host],
                                            "fn": "target"}})
     return cases, unlisted
@@ -284,32 +284,63 @@ def observed_os(obs):
     return 0 if m.group(1) == "real" else int(m.group(2))
 
 
-def run_cases(exe, sentdir, specs, nshard):
+SENT = "@@SENT@@"
+
+
+def run_cases(exe, work, specs, nshard):
+    """Every shard gets its own real sentinel tree; the placeholder in the scripts is replaced by its path."""
     shards = [specs[i::nshard] for i in range(nshard)]
     env = dict(os.environ)
     env.update({"C12_SENTINEL": "real", "WHO": "real"})
     env.pop("C12_NEW", None)
 
     def one(i):
+        """Run a shard; if the harness process dies (e.g. the REAL os.Exit was reached), the first case without an
+        observation is the culprit: record that and go on with the rest in a new process."""
         if not shards[i]:
-            return 0, "", ""
-        inp = "\n".join(json.dumps(s) for s in shards[i]) + "\n"
-        return C.run([exe, "run", sentdir], input=inp.encode(), env=env, cwd=sentdir, timeout=1800)
+            return {}
+        sw = os.path.join(work, "shard%d" % i)
+        os.makedirs(sw, exist_ok=True)
+        sentdir = make_sentinels(sw, repair=True)
+        todo = list(shards[i])
+        out = {}
+        while todo:
+            inp = "\n".join(json.dumps(s).replace(SENT, sentdir) for s in todo) + "\n"
+            rc, o, e = C.run([exe, "run", sentdir], input=inp.encode(), env=env, cwd=sentdir, timeout=1800)
+            done = 0
+            for line in o.split("\n"):
+                if line.strip():
+                    try:
+                        j = json.loads(line)
+                    except ValueError:
+                        break
+                    out[j["id"]] = j
+                    done += 1
+            if rc == 0 and done == len(todo):
+                break
+            if done >= len(todo):
+                break
+            culprit = todo[done]
+            out[culprit["id"]] = {"id": culprit["id"], "result": "", "err": "", "log": [],
+                                  "real": ["the harness process died during this case (exit status %s): %s" % (rc, e[-300:])]}
+            todo = todo[done + 1:]
+            make_sentinels(sw, repair=True)
+        ok, names = sentinels_intact(sentdir)
+        if not ok:
+            out["@final%d" % i] = names
+        return out
     with ThreadPoolExecutor(max_workers=nshard) as ex:
         outs = list(ex.map(one, range(nshard)))
     res = {}
-    for rc, o, e in outs:
-        if rc != 0:
-            return None, "c12obs run failed rc=%s: %s" % (rc, e[-1500:])
-        for line in o.split("\n"):
-            if line.strip():
-                j = json.loads(line)
-                res[j["id"]] = j
+    for o in outs:
+        res.update(o)
     return res, ""
 
 
-def make_sentinels(work):
+def make_sentinels(work, repair=False):
     d = os.path.join(work, "sentinel")
+    if repair:
+        shutil.rmtree(d, ignore_errors=True)
     os.makedirs(os.path.join(d, "sub"))
     open(os.path.join(d, "sentinel.txt"), "w").write("real-content\n")
     open(os.path.join(d, "sub", "inner.txt"), "w").write("real-inner")
@@ -369,8 +400,8 @@ def run(res):
 def _body(res, tier, repo, obs, model, cg, proved, work):
     cov = res.coverage
     rng = C.Rng(res.seed)
-    sent = make_sentinels(work)
-    P, D = os.path.join(sent, "sentinel.txt"), sent
+    sent = SENT
+    P, D = SENT + "/sentinel.txt", SENT
     rc, o, e = C.run([obs, "list", repo], timeout=120)
     if rc != 0:
         res.violation({"property": PROP, "kind": "harness-run-failed", "stage": "c12obs list", "log": e[-2000:]}, nofail=True, tag="run")
@@ -378,6 +409,11 @@ def _body(res, tier, repo, obs, model, cg, proved, work):
     listing = json.loads(o)
     tbl = table(P, D)
     bcases, unlisted = gen_builtin_cases(listing, tbl, tier, rng)
+    if tier == "thorough":
+        # the same calls with RELATIVE paths: the real working directory of the harness is the real sentinel directory, the
+        # virtual one is elsewhere, so a leaked call would hit the real sentinels
+        rel, _ = gen_builtin_cases(listing, table("sentinel.txt", "."), tier, rng, tag="r", groups=("os", "filepath", "globals"))
+        bcases += rel
     dcases = gen_derivations(rng, 300 if tier == "quick" else 6000)
     # corpus: documented fall-backs (witnesses of what the hypothesis excludes)
     corpus = [("T 1 2", "ctx-wins"), ("T 0 2 HL 0", "bare-clone-falls-back"), ("T 1 0 HL 0 S I F", "withos-everywhere")]
@@ -398,7 +434,7 @@ def _body(res, tier, repo, obs, model, cg, proved, work):
                                    "fn": "target"}})
     allcases = dcases + bcases
     nshard = min(C.NCPU, 16)
-    got, err = run_cases(obs, sent, [c["spec"] for c in allcases], nshard)
+    got, err = run_cases(obs, work, [c["spec"] for c in allcases], nshard)
     if got is None:
         res.violation({"property": PROP, "kind": "harness-run-failed", "stage": "c12obs run", "log": err}, nofail=True, tag="run")
         return
@@ -444,7 +480,7 @@ def _body(res, tier, repo, obs, model, cg, proved, work):
             if "real-content" in g.get("result", "") or "real-inner" in g.get("result", "") or g.get("result") == '"real"':
                 why.append("result carries data of the real OS: " + g.get("result", "")[:80])
             if c["expect"]:
-                nontrivial.add((c["builtin"], c["context"], c["supply"]))
+                nontrivial.add((c["builtin"], c["context"], c["supply"], c["id"][0]))
             ops_seen.update(ops)
         else:
             toks = c["deriv"].split()
@@ -469,9 +505,9 @@ def _body(res, tier, repo, obs, model, cg, proved, work):
         if len(samples) < 10 and (evals % max(1, len(allcases) // 10) == 1):
             samples.append({"case": {k: c[k] for k in c if k not in ("spec",)}, "main": c["spec"]["main"][:300],
                             "result": g.get("result", "")[:80], "err": g.get("err", "")[:80], "log": log[:5]})
-    intact, names = sentinels_intact(sent)
-    if not intact:
-        oracle_viol.append({"case": {"kind": "final"}, "why": ["real sentinel tree changed after the run: %s" % names]})
+    for k, names in got.items():
+        if k.startswith("@final"):
+            oracle_viol.append({"case": {"kind": "final"}, "why": ["real sentinel tree changed after the run: %s" % names]})
 
     cov["evaluations"] = evals
     cov["distinct_nontrivial"] = len(nontrivial)
@@ -539,10 +575,7 @@ def replay(data):
         return 2
     work = tempfile.mkdtemp(prefix="c12-replay-")
     try:
-        sent = make_sentinels(work)
-        if data.get("sentinel_dir"):
-            spec = json.loads(json.dumps(spec).replace(data["sentinel_dir"], sent))
-        got, err = run_cases(obs, sent, [spec], 1)
+        got, err = run_cases(obs, work, [spec], 1)
         print(json.dumps(got, indent=1) if got else err)
     finally:
         shutil.rmtree(work, ignore_errors=True)
